@@ -128,6 +128,10 @@ def gen_spec(rng, fixture_docx=None, max_att=3):
         html = "<html><body><p>" + plain.replace("\n", "</p><p>") + "</p></body></html>"
     layout = pick(rng, ["plain", "html", "alt", "alt", "related"]) if html else "plain"
     atts = [rand_attachment(rng, fam, fixture_docx) for _ in range(rng.randrange(0, max_att + 1))] if rng.random() < 0.6 else []
+    if len(atts) >= 2 and rng.random() < 0.5:
+        # mail clients label everything alike: one declared type for attachments of different file types
+        shared = pick(rng, ["application/octet-stream", "text/plain", atts[0][1]])
+        atts = [(f"{i}-{fn}", shared, data) for i, (fn, _, data) in enumerate(atts)]
     return {
         "subject": subject, "from": rand_addr(rng, fam), "to": [rand_addr(rng, fam) for _ in range(rng.randrange(1, 4))],
         "cc": [rand_addr(rng, fam) for _ in range(rng.randrange(0, 3))], "date": date,
@@ -317,7 +321,7 @@ def build(spec) -> bytes:
     return raw
 
 
-def lossless(spec, raw: bytes) -> bool:
+def lossless(spec, raw: bytes, headers_only: bool = False) -> bool:
     """Filter, not ground truth: the stdlib's own modern parser must get the spec back from the bytes
     (CPython's header folder can drop a space between two encoded words; such bytes do not encode
     the spec and are discarded)."""
@@ -344,6 +348,8 @@ def lossless(spec, raw: bytes) -> bool:
                 return False
         if m["Date"].datetime != spec["date"] or str(m["Message-ID"]) != spec["msgid"]:
             return False
+        if headers_only:
+            return True
         atts = [(p.get_filename(), p.get_content_type(), p.get_payload(decode=True)) for p in m.iter_attachments()
                 if p.get_content_type() != "image/gif"] if m.is_multipart() else []
         if atts != [tuple(a) for a in spec["attachments"]]:
